@@ -8,5 +8,6 @@ CONSTANTS
   MaxWrites = 1
   SyncStates = {"running"}
   StrictPolicy = TRUE
+  WithEvents = FALSE
   ConsistentEnv = FALSE
 INVARIANTS TypeOK Inv_AdjDescribesCreated
